@@ -23,7 +23,7 @@ def cli():
     '--basedir',
     help='The base directory for the XML files to point relative to.',
     type=click.Path(exists=True),
-    default=Path.cwd(),
+    default=Path.cwd,
 )
 @click.option(
     '-v',
